@@ -402,7 +402,7 @@ func init() {
 		return false
 	}
 	addCheck(&Check{Flows: []flowOracle{flowStamped}, ID: "C07", Level: "exploration",
-		Rule:   "complete product through the REAL main() with a YAML file (thorough: also through startProxy): no-received {absent,false,true} x arrival {UDP, accepted TCP connection, TCP connection the proxy dialled to a backend} x true source {plain, other address and high port, equal to the Via sent-by, source port 65535} x rport {absent, valueless, spoofed} x received {absent, spoofed} x Via layout x relaying path x {alone, immediately followed by a datagram from another source, another TCP connection accepted before the request is sent} x order of the sender's Via parameters (rport / received before or after branch) x {one listens entry, a second entry with the OPPOSITE received setting through which the next hop was learned} x {few Via parameters, 20 parameters ahead of rport / received}; after the request, the next hop answers and the response is followed to the true source; non-trivial = request relayed",
+		Rule:   "complete product through the REAL main() with a YAML file (thorough: also through startProxy): no-received {absent,false,true} x arrival {UDP, accepted TCP connection, TCP connection the proxy dialled to a backend} x true source {plain, other address and high port, equal to the Via sent-by, source port 65535} x rport {absent, valueless, spoofed} x received {absent, spoofed} x Via layout x relaying path x {alone, immediately followed by a datagram from another source, another TCP connection accepted before the request is sent, the same transaction a moment earlier from another source port} x order of the sender's Via parameters (rport / received before or after branch) x {one listens entry, a second entry with the OPPOSITE received setting through which the next hop was learned} x {few Via parameters, 20 parameters ahead of rport / received}; after the request, the next hop answers and the response is followed to the true source; non-trivial = request relayed",
 		Assume: []string{"position of a newly added Via parameter is not prescribed (parameters of the sender's entry compared as a multiset)"},
 		Run:    func(c *Ctx) { c07Spec.Run(c); cleanupYamlFiles() },
 		Replay: func(c *Ctx, raw json.RawMessage) string { defer cleanupYamlFiles(); return c07Spec.Replay(raw) },
